@@ -211,3 +211,50 @@ def snap_batch(cases_path, out_path, workdir):
             rec["raised"] = "%s: %s" % (type(e).__name__, e)
         out.append(rec)
     json.dump(out, open(out_path, "w"))
+
+
+# ----------------------------------------------------------------------------- C17: substitution file round trip under P ranks
+def load_subs_roundtrip(fname, max_param, out_path):
+    """load_subs on all ranks; rank 0 stores a projection of what was loaded (independent of sympy objects' identity)."""
+    import numpy as np, sympy
+    from mpi4py import MPI
+    import esr.generation.simplifier as simp
+    res = {}
+    for use_sympy in (True, False):
+        subs = simp.load_subs(fname, max_param, use_sympy=use_sympy)
+        if MPI.COMM_WORLD.Get_rank() == 0:
+            rows = []
+            for row in subs:
+                r = []
+                for el in row:
+                    if isinstance(el, float):
+                        r.append("nan" if np.isnan(el) else repr(el))
+                    elif isinstance(el, dict):
+                        r.append({str(k): str(v) for k, v in el.items()})
+                    else:
+                        r.append(str(el))
+                rows.append(r)
+            res["sympy" if use_sympy else "str"] = rows
+    if MPI.COMM_WORLD.Get_rank() == 0:
+        with open(out_path, "w") as f:
+            json.dump(res, f)
+    MPI.COMM_WORLD.Barrier()
+
+
+# ----------------------------------------------------------------------------- C05: match.main on a synthetic library
+def match_batch(spec_path, out_path):
+    """spec: {fn_set, n, data_dir, data_file}: the library files and the unique functions' stage outputs were written
+    by the harness; run the real match.main on all ranks; rank 0 copies codelen_matches to out_path."""
+    import io, contextlib, shutil
+    from mpi4py import MPI
+    sp = json.load(open(spec_path))
+    like = make_like("gauss", sp["data_file"], "r", sp["data_dir"], sp["fn_set"])
+    import esr.fitting.match as m
+    buf = io.StringIO()
+    with contextlib.redirect_stdout(buf):
+        m.main(sp["n"], like, tmax=120)
+    if MPI.COMM_WORLD.Get_rank() == 0:
+        shutil.copy(os.path.join(like.out_dir, "codelen_matches_comp%d.dat" % sp["n"]), out_path)
+        with open(out_path + ".log", "w") as f:
+            f.write(buf.getvalue()[-20000:])
+    MPI.COMM_WORLD.Barrier()
